@@ -216,6 +216,9 @@ func (g *G) stmt(c *gctx) []*N {
 		add(4, func() []*N { return []*N{g.guarded(c, &N{K: "throw", Ns: []*N{g.thrown(c)}})} })
 		add(3, func() []*N { return []*N{g.guarded(c, g.runtimeErr(c))} })
 		add(7, func() []*N { return []*N{g.deferStmt(c)} })
+		if !deep {
+			add(2, func() []*N { return g.deferRebind(c) })
+		}
 		if !deep && P.HostChan {
 			add(4, func() []*N { return []*N{g.callbackStmt(c)} })
 		}
@@ -847,6 +850,58 @@ func (g *G) deferStmt(c *gctx) *N {
 	default:
 		return &N{K: "defer", Ns: []*N{{K: "pfail", I: g.id()}}}
 	}
+}
+
+// deferRebind: ONE `defer name(args)` statement is executed several times while the name is bound to
+// a different function each time (a callback parameter, a variable rebound between the calls, a loop
+// variable): every execution registers the function the name holds at that moment.
+func (g *G) deferRebind(c *gctx) []*N {
+	g.feat("defer_same_statement_different_callees")
+	g.nextFn++
+	w := fmt.Sprintf("dw%d", g.nextFn)
+	lit := func() *N {
+		return &N{K: "fn", Ps: []string{"a"}, Ss: [][]*N{{{K: "expr", Ns: []*N{P1(g.id(), Id("a"))}}, {K: "ret", Ns: []*N{Int(0)}}}}}
+	}
+	n := g.n(2, 3, "rebinds")
+	var out []*N
+	switch g.n(0, 2, "rebindform") {
+	case 0:
+		// the callee is a parameter of the enclosing function
+		out = append(out, &N{K: "expr", Ns: []*N{{K: "fn", S: w, Ps: []string{"cb"}, Ss: [][]*N{{
+			{K: "defer", Ns: []*N{Call("cb", P1(g.id(), Int(int64(g.n(1, 9, "dv")))))}},
+			{K: "expr", Ns: []*N{P(g.id())}},
+			{K: "ret", Ns: []*N{Int(1)}},
+		}}}}})
+		for i := 0; i < n; i++ {
+			out = append(out, &N{K: "expr", Ns: []*N{Call(w, lit())}})
+		}
+	case 1:
+		// the callee is a variable of the enclosing scope, rebound between the calls
+		hold := w + "h"
+		out = append(out, &N{K: "let", Ps: []string{hold}, Ns: []*N{lit()}})
+		out = append(out, &N{K: "expr", Ns: []*N{{K: "fn", S: w, Ss: [][]*N{{
+			{K: "defer", Ns: []*N{Call(hold, Int(int64(g.n(1, 9, "dv"))))}},
+			{K: "ret", Ns: []*N{Int(1)}},
+		}}}}})
+		for i := 0; i < n; i++ {
+			if i > 0 {
+				out = append(out, &N{K: "let", Ps: []string{hold}, Ns: []*N{lit()}})
+			}
+			out = append(out, &N{K: "expr", Ns: []*N{Call(w)}})
+		}
+	default:
+		// the callee is the variable of a loop inside one invocation: the calls run last-registered first
+		lst := &N{K: "list"}
+		for i := 0; i < n; i++ {
+			lst.Ns = append(lst.Ns, lit())
+		}
+		out = append(out, &N{K: "expr", Ns: []*N{{K: "fn", S: w, Ss: [][]*N{{
+			{K: "forin", Ps: []string{"df"}, Ns: []*N{lst}, Ss: [][]*N{{{K: "defer", Ns: []*N{Call("df", P1(g.id(), Int(int64(g.n(1, 9, "dv")))))}}}}},
+			{K: "ret", Ns: []*N{Int(1)}},
+		}}}}})
+		out = append(out, &N{K: "expr", Ns: []*N{Call(w)}})
+	}
+	return out
 }
 
 func (g *G) moduleStmt(c *gctx) []*N {
